@@ -349,26 +349,82 @@ func c47History(rt *rapid.T, c *ev.Collector, f33 bool) (classes []string, key s
 		}
 	}()
 
+	// ake runs one key exchange as a schedule: the two directions are FIFO queues and at
+	// every step rapid draws whether the head of one of them is delivered or a side that
+	// still has starts left sees a query.  kind: "A", "B" (one start), "both" (one start each,
+	// any interleaving incl. the textbook crossing and staggered starts), "A-twice",
+	// "B-twice" (two starts on one side), "many" (three or four starts: the OTR v2 state
+	// machine itself can strand both sides then; one further start on a quiet line must recover).
 	ake := func(kind string) {
 		hist = append(hist, "ake:"+kind)
 		before := [2]int{n.side[0].newKeys, n.side[1].newKeys}
-		q := []byte(otr.QueryMessage)
-		switch kind {
-		case "A":
-			n.receive(0, q)
-		case "B":
-			n.receive(1, q)
-		default: // both see a query at the same time: D-H commits cross
-			n.receive(0, q)
-			n.receive(1, q)
+		left := map[string][2]int{"A": {1, 0}, "B": {0, 1}, "both": {1, 1}, "A-twice": {2, 0}, "B-twice": {0, 2}}[kind]
+		if kind == "many" {
+			left = [2]int{rapid.IntRange(1, 2).Draw(rt, "startsA"), 2}
+			if rapid.Bool().Draw(rt, "manyswap") {
+				left[0], left[1] = left[1], left[0]
+			}
 		}
-		n.pump()
+		total := left[0] + left[1]
+		q := []byte(otr.QueryMessage)
+		var sched []string
+		for {
+			type opt struct {
+				start bool
+				side  int
+			}
+			var opts []opt
+			for d := 0; d < 2; d++ {
+				if len(n.q[d]) > 0 {
+					opts = append(opts, opt{false, d})
+				}
+			}
+			for d := 0; d < 2; d++ {
+				if left[d] > 0 {
+					opts = append(opts, opt{true, d})
+				}
+			}
+			if len(opts) == 0 {
+				break
+			}
+			o := opts[rapid.IntRange(0, len(opts)-1).Draw(rt, "sched")]
+			if o.start {
+				left[o.side]--
+				sched = append(sched, n.side[o.side].name+"?")
+				n.receive(o.side, q)
+			} else {
+				if len(sched) < 40 {
+					sched = append(sched, n.side[o.side].name+"<"+msgKind(n.q[o.side][0]))
+				}
+				n.deliverOne(o.side)
+			}
+			if n.steps > 400000 {
+				n.fail("no quiescence after 400000 deliveries")
+			}
+		}
+		hist = append(hist, "["+strings.Join(sched, " ")+"]")
+		// (IsEncrypted alone says nothing during a re-keying: a half-done exchange has already
+		// discarded the old keys, so completion is judged by NewKeys on both sides)
+		settled := func() bool {
+			return n.side[0].conv.IsEncrypted() && n.side[1].conv.IsEncrypted() && n.side[0].conv.SSID == n.side[1].conv.SSID &&
+				n.side[0].newKeys > before[0] && n.side[1].newKeys > before[1]
+		}
+		if total > 2 && !settled() {
+			classes = append(classes, "ake:stranded-then-recovered")
+			who := rapid.IntRange(0, 1).Draw(rt, "recover")
+			hist = append(hist, "quiet:"+n.side[who].name+"?")
+			n.receive(who, q)
+			n.pump()
+		}
 		for i, s := range n.side {
 			if !s.conv.IsEncrypted() {
 				n.fail("after the key exchange (%s) %s is not in the encrypted state", kind, s.name)
 			}
-			if s.newKeys != before[i]+1 {
+			if total == 1 && s.newKeys != before[i]+1 {
 				n.fail("after the key exchange (%s) %s reported NewKeys %d times", kind, s.name, s.newKeys-before[i])
+			}
+			if s.newKeys <= before[i] {
+				n.fail("after the key exchange (%s) %s never reported NewKeys", kind, s.name)
 			}
 		}
 		if n.side[0].conv.SSID != n.side[1].conv.SSID {
@@ -378,13 +434,15 @@ func c47History(rt *rapid.T, c *ev.Collector, f33 bool) (classes []string, key s
 			n.fail("TheirPublicKey is not the peer's key after the key exchange")
 		}
 		for _, s := range n.side {
-			if len(s.errs) > 0 {
+			if total == 1 && len(s.errs) > 0 {
 				n.fail("%s.Receive reported errors during an undisturbed key exchange (%s): %q", s.name, kind, s.errs)
 			}
+			// (with several starts, messages of an abandoned exchange are legitimately refused)
+			s.errs = nil
 		}
 	}
 
-	start := rapid.SampledFrom([]string{"A", "B", "both", "both"}).Draw(rt, "start")
+	start := rapid.SampledFrom([]string{"A", "B", "both", "both", "both", "A-twice", "B-twice", "many"}).Draw(rt, "start")
 	ake(start)
 	classes = append(classes, "ake="+start)
 	key = fmt.Sprintf("f%d/%d|r%v|ake=%s", fa, fb, n.refrag, start)
@@ -731,7 +789,7 @@ func c47History(rt *rapid.T, c *ev.Collector, f33 bool) (classes []string, key s
 			hist = append(hist, fmt.Sprintf("hostile:%v", kinds))
 			key += fmt.Sprintf("|h%d:%s", k, strings.Join(dedup(kinds), ","))
 		case "rekey":
-			who := rapid.SampledFrom([]string{"A", "B", "both"}).Draw(rt, "rekeywho")
+			who := rapid.SampledFrom([]string{"A", "B", "both", "both", "A-twice", "many"}).Draw(rt, "rekeywho")
 			ake(who)
 			classes = append(classes, "rekey="+who)
 			key += "|rk" + who
@@ -1051,6 +1109,53 @@ func TestC47(t *testing.T) {
 		}
 		c.Case(true, "exh|continue", "hostile:exhaustive-probes:rejected-then-continue")
 		c.Exhaustive("one flipped bit in each MAC byte, each header byte and sampled ciphertext bytes of a data message", total)
+	}
+
+	// bounded-exhaustive: every delivery order of every start configuration with at most two
+	// starts (each with several random streams so that both outcomes of the D-H commit hash
+	// comparison occur); three starts are enumerated completely in thorough and up to a cap in quick
+	{
+		total, i := 0, 0
+		orders := map[string]int{}
+		cfgs := [][2]int{{1, 0}, {0, 1}, {1, 1}, {2, 0}, {0, 2}}
+		if ev.Thorough() {
+			cfgs = append(cfgs, [2]int{2, 1}, [2]int{1, 2})
+		}
+		for _, cfg := range cfgs {
+			for sd := uint64(0); sd < 6; sd++ {
+				i++
+				if !ev.Mine(i) {
+					continue
+				}
+				n, complete := enumerateAKE(cfg[0], cfg[1], ev.Seed()+sd*7919, 5000, func(path []int, r akeResult) bool {
+					if r.pn != nil {
+						what := fmt.Sprintf("panic during the key exchange schedule [%s] (starts %v): %s", r.trace, cfg, r.pn)
+						c.Violation(what, "")
+						t.Fatalf("VF-VIOLATION: property=C47 %s", what)
+					}
+					if r.fail != "" {
+						what := fmt.Sprintf("key exchange schedule [%s] (A starts %d times, B %d times, commit digests %s): %s", r.trace, cfg[0], cfg[1], r.hashOrder, r.fail)
+						c.Violation(what, "")
+						t.Fatalf("VF-VIOLATION: property=C47 %s", what)
+					}
+					orders[r.hashOrder]++
+					cls := []string{fmt.Sprintf("ake-schedule:starts=%d/%d", cfg[0], cfg[1])}
+					if r.hashOrder != "" {
+						cls = append(cls, "ake-schedule:commit-digests "+r.hashOrder)
+					}
+					if r.recovered {
+						cls = append(cls, "ake-schedule:stranded-then-recovered")
+					}
+					c.Case(true, fmt.Sprintf("sched|%v|%s|%s", cfg, r.hashOrder, r.trace), cls...)
+					return true
+				})
+				if !complete {
+					c.Assumption(fmt.Sprintf("AKE schedule enumeration for starts %v stopped after %d schedules", cfg, n))
+				}
+				total += n
+			}
+		}
+		c.Exhaustive("delivery orders of the key exchange for every start configuration with <= 2 starts (x 6 random streams)", total)
 	}
 
 	rapid.Check(t, func(rt *rapid.T) {
